@@ -455,7 +455,7 @@ func runC08(c *Ctx) {
 			}
 			nbk := c.Anchor("pkg/blockchain.NewBlock")
 			if nbk != nil {
-				c.Require("C08.I1 transactions-decoded-strictly", FuncKey(nbk)+": transactions", p.Pos(nbk.Pos()), "NewBlock builds every transaction with NewTransaction (strict decode of the transaction's own bytes)", len(CallsIn(nbk, "blockchain.NewTransaction")) >= 1, "")
+				c.Require("C08.I1 transactions-decoded-strictly", FuncKey(nbk)+": transactions", p.Pos(nbk.Pos()), "NewBlock builds every transaction with NewTransaction (strict decode of the transaction's own bytes)", len(CallsIn(nbk, "blockchain.NewTransaction")) >= 1 || mentionsFunc(nbk, nt), "")
 			}
 			c.Count("production callers of the generated Block decoder", nb)
 		}
@@ -725,4 +725,21 @@ func checkStrictScalarReaders(c *Ctx) {
 		c.Require("C08.P2 strict-missing-field", FuncKey(fn), p.Pos(fn.Pos()), fmt.Sprintf("an error of the field-key check is returned iff strict, or it is not one of the two 'field is not here' errors — over %v (%d abstract inputs)", atoms, ev), dis == "" && len(atoms) >= 3, dis)
 	}
 	c.MinInstances("C08.P2 strict-missing-field", n, 7)
+}
+
+// mentionsFunc: fn (or a new helper of it) uses g as a value — calls it or hands it on
+// (decodeEach(raw.Transactions, NewTransaction)).
+func mentionsFunc(fn, g *ssa.Function) bool {
+	for _, f := range funcAndHelpers(fn) {
+		for _, b := range f.Blocks {
+			for _, in := range b.Instrs {
+				for _, op := range in.Operands(nil) {
+					if op != nil && *op == ssa.Value(g) {
+						return true
+					}
+				}
+			}
+		}
+	}
+	return false
 }
